@@ -349,7 +349,7 @@ func TestC18(t *testing.T) {
 	}
 
 	// (h) uniform random bit patterns
-	n = nCases(1_500_000, 45_000_000)
+	n = nCases(1_500_000, 400_000_000)
 	for i := 0; i < n; i++ {
 		b := r.u64()
 		if (b>>52)&0x7ff == 0x7ff {
